@@ -314,11 +314,12 @@ func (r *runner) finish(c *hx.Ctx, label string, sample bool) {
 			continue
 		}
 		var steps []string
+		tbl := &msgTable{idx: map[string]int{}}
 		for _, o := range nw.trace[idx] {
-			steps = append(steps, obsTerm(o))
+			steps = append(steps, obsTerm(tbl, o))
 		}
 		h := nh[idx]
-		term := fmt.Sprintf("CNode %s %s %s %s %s %s %s %s", nw.p.coq(), cN(idx), hx.CoqList(steps), coqBlks(nw.signed[idx]),
+		term := fmt.Sprintf("CNode %s %s %s %s %s %s %s %s %s", nw.p.coq(), cN(idx), hx.CoqList(tbl.terms), hx.CoqList(steps), coqBlks(nw.signed[idx]),
 			hx.CoqBool(h.V), hx.CoqBool(h.D), hx.CoqBool(h.E), hx.CoqBool(h.U))
 		c.Case(term, map[string]interface{}{"schedule": label, "node": idx, "events": len(steps), "params": nw.p})
 	}
@@ -366,6 +367,14 @@ func Run(c *hx.Ctx) {
 			continue
 		}
 		runSchedule(c, w, s, true)
+	}
+	for k := 1; k <= 3; k++ {
+		s, err := probe(w, k)
+		if err != nil {
+			c.Note("probe: " + err.Error())
+			continue
+		}
+		runSchedule(c, w, s, false)
 	}
 	// 4. generated schedules
 	n := c.N(110, 1100)
